@@ -302,6 +302,8 @@ class Summariser:
             return ('return', self.sym(st.value))
         if isinstance(st, ast.Raise):
             return ('raises', unparse(st))
+        if isinstance(st, ast.Continue):
+            return ('continue', None)
         if isinstance(st, ast.Assign) and len(st.targets) == 1 and \
                 isinstance(st.targets[0], ast.Name):
             if isinstance(st.value, (ast.Tuple, ast.List)) and st.value.elts \
@@ -327,6 +329,23 @@ class Summariser:
             tbl = st.iter if isinstance(st.iter, (ast.Tuple, ast.List)) \
                 else self.tables.get(st.iter.id) if isinstance(
                     st.iter, ast.Name) else None
+            if tbl is None and isinstance(st.iter, ast.Call) and isinstance(
+                    st.iter.func, ast.Attribute) and isinstance(
+                        st.iter.func.value, ast.Name) and \
+                    st.iter.func.value.id in ('cls', 'self') and \
+                    self.cls is not None and not st.iter.args:
+                # the table is returned by a method of the class
+                nm = st.iter.func.attr
+                meth = None
+                for k_, v_ in self.cls.methods.items():
+                    if k_ == nm or k_.endswith(nm):
+                        meth = v_
+                if meth is not None:
+                    rets = [n for n in ast.walk(meth)
+                            if isinstance(n, ast.Return)]
+                    if len(rets) == 1 and isinstance(
+                            rets[0].value, (ast.Tuple, ast.List)):
+                        tbl = rets[0].value
             if tbl is not None and names and len(tbl.elts) <= 16 and all(
                     isinstance(r_, (ast.Tuple, ast.List)) and
                     len(r_.elts) == len(names) for r_ in tbl.elts):
@@ -345,7 +364,7 @@ class Summariser:
                                     .format(self.f.fq, unparse(cell)))
                             self.cenv[k] = v
                     r = self._block(st.body)
-                    if r is not None:
+                    if r is not None and r[0] != 'continue':
                         return r
                 return None
             rows = self.cev(st.iter)
@@ -362,7 +381,7 @@ class Summariser:
                             '{}: table row does not match the loop target'
                             .format(self.f.fq))
                     r = self._block(st.body)
-                    if r is not None:
+                    if r is not None and r[0] != 'continue':
                         return r
                 return None
         if isinstance(st, ast.If):
